@@ -198,6 +198,14 @@ func ZZC02Length() {
 		}
 		rules = cat(rules, bs("maxLength: "), pmax)
 	}
+	// nullable: absent, true or false (false is inert)
+	nullable := v.Choose(0, 2)
+	if nullable != 0 {
+		if len(rules) > 0 {
+			rules = append(rules, ", "...)
+		}
+		rules = cat(rules, bs("nullable: "), bs([]string{"", "true", "false"}[nullable]))
+	}
 	schema := ex
 	if len(rules) > 0 {
 		schema = cat(ex, bs(" // {"), rules, bs("}"))
@@ -206,7 +214,28 @@ func ZZC02Length() {
 	s := jschema.New("s", schema)
 	v.Assume(s.Check() == nil)
 	v.Reach("C02/length-schema-accepted")
-	doc, dec := docString(v.Param("pieces", 3), v.Param("piecekinds", 6))
+	var doc, dec []byte
+	switch v.Choose(0, 3) {
+	case 0:
+		doc, dec = docString(v.Param("pieces", 3), v.Param("piecekinds", 6))
+	case 1:
+		// the null value itself: admitted by nullable: true whatever the other rules say
+		doc = bs("null")
+		v.Observe("doc", doc)
+		nerr := s.Validate(json.New("d", doc))
+		if nullable == 1 {
+			v.Reach("C02/null-admitted")
+			v.Assert(nerr == nil, "C02/null-rejected-despite-nullable")
+		} else {
+			v.Assert(nerr != nil, "C02/null-accepted-without-nullable")
+		}
+		return
+	case 2:
+		// a string that merely spells null is a string like any other
+		doc, dec = bs(`"null"`), bs("null")
+	default:
+		doc, dec = bs(`"nul"`), bs("nul")
+	}
 	v.Observe("doc", doc)
 	verr := s.Validate(json.New("d", doc))
 	want := true
@@ -433,7 +462,32 @@ func ZZC02Format() {
 	v.Assert((verr == nil) == want, "C02/format-verdict")
 }
 
-func init() { ZZHarnesses["ZZC02Format"] = ZZC02Format }
+// ZZC02URI: concrete URIs around the rule "absolute, with a host name" (the engine calls net/url
+// natively for concrete strings, so library and oracle really parse them); one symbolic byte
+// replaces a plain path byte to keep a solver-decided part.
+func ZZC02URI() {
+	uris := []string{"http://a.b/c", "http://:8080/a", "https://:443/index.html", "http://:/a", "http://a.b:80/c", "http:///a", "/a",
+		"mailto:a@b.c", "http://a", "//a/b", "http://[::1]:80/", "http://[::1]/x", "ftp://h/p", "http://", "h ttp://a/b", "http://a b/"}
+	u := uris[v.Choose(0, len(uris)-1)]
+	doc := cat(bs(`"`), bs(u), bs(`"`))
+	v.Observe("doc", doc)
+	s := jschema.New("s", `"http://a.b/c" // {type: "uri"}`)
+	v.Assert(s.Check() == nil, "C02/format-schema-rejected")
+	verr := s.Validate(json.New("d", doc))
+	pu, e := urlParse(u)
+	want := e == nil && pu.IsAbs() && pu.Hostname() != ""
+	if want {
+		v.Reach("C02/uri-accept")
+	} else {
+		v.Reach("C02/uri-reject")
+	}
+	v.Assert((verr == nil) == want, "C02/format-verdict")
+}
+
+func init() {
+	ZZHarnesses["ZZC02Format"] = ZZC02Format
+	ZZHarnesses["ZZC02URI"] = ZZC02URI
+}
 
 func c02Hex(c byte) bool {
 	return ('0' <= c && c <= '9') || ('a' <= c && c <= 'f') || ('A' <= c && c <= 'F')
